@@ -5,6 +5,7 @@ from .. import core, lmm
 class C17(core.Prop):
     id = "C17"
     drivers = ["lmm_driver"]
+    ready = True
     technique = "property-based differential testing: selective-update solve vs a fresh full solve of the same system after every step of generated histories"
     sizes = {"quick": 15000, "thorough": 400000}
     rule = ("C15 histories with the maxmin solver and selective update ON, a solve after random subsets of modifications, plus counter-jump "
